@@ -41,7 +41,7 @@ LEAN_T = {'int': 'Int', 'str': 'Str', 'bool': 'Bool', 'optpoint': 'Option Point'
           'pairs': 'List (Nat × Nat)', 'fmtitems': 'Fmts', 'optint': 'Option Int', 'optstr': 'Option Str', 'char': 'Char',
           'idxmap': 'List (Int × List Setting)', 'ilist': 'List Int',
           'strlist': 'List Str', 'effdict': 'PyDict', 'effkey': 'Nat', 'effkeys': 'List Nat',
-          'olist': 'List AStr', 'pairlist': 'List (Int × Int)', 'match': 'Option Re.Caps', 'nat': 'Nat'}
+          'olist': 'List AStr', 'pairlist': 'List (Int × Int)', 'match': 'Option Re.Caps', 'nat': 'Nat', 'effitems': 'List (Nat × Setting)'}
 OPT_OF = {'int': 'optint', 'str': 'optstr', 'slist': 'optslist'}
 BASE_OF = {v: k for k, v in OPT_OF.items()}
 
@@ -268,6 +268,13 @@ class M:
             return self.b(e.args[0], env), 'bool'
         if isinstance(e, ast.Dict) and not e.keys:
             return '([] : PyDict)', 'effdict'
+        if isinstance(e, ast.Call) and isinstance(e.func, ast.Attribute) and e.func.attr == 'items' and not e.args and not e.keywords \
+                and isinstance(e.func.value, ast.Name) and env.get(e.func.value.id) == 'effdict':
+            return mangle(e.func.value.id), 'effitems'
+        if isinstance(e, ast.Subscript) and not isinstance(e.slice, ast.Slice) and isinstance(e.value, ast.Name) \
+                and env.get(e.value.id) == 'effdict':
+            k = self.typed(e.slice, env, 'effkey')
+            return self.hoist('Py.dictGet %s %s' % (mangle(e.value.id), k)), 'setting'        # KeyError when absent
         if isinstance(e, ast.Call) and isinstance(e.func, ast.Attribute) and e.func.attr == 'keys' and not e.args and not e.keywords \
                 and isinstance(e.func.value, ast.Name) and env.get(e.func.value.id) == 'effdict':
             return '(%s.map (·.1))' % mangle(e.func.value.id), 'effkeys'
@@ -598,6 +605,8 @@ class M:
                 return '(decide (%s %s %s))' % (a, ops[type(o)], b_), 'bool'
             if isinstance(o, (ast.Eq, ast.NotEq)) and ta == tb and ta in ('str', 'bool'):
                 return '(%s %s %s)' % (a, '==' if isinstance(o, ast.Eq) else '!=', b_), 'bool'
+            if isinstance(o, (ast.Eq, ast.NotEq)) and ta == tb == 'setting':
+                return '(%s.txt %s %s.txt)' % (a, '==' if isinstance(o, ast.Eq) else '!=', b_), 'bool'     # AnsiSetting.__eq__
             if isinstance(o, (ast.Eq, ast.NotEq)) and (ta, tb) == ('optstr', 'str'):
                 return '(%s %s some %s)' % (a, '==' if isinstance(o, ast.Eq) else '!=', b_), 'bool'
             if isinstance(o, (ast.Eq, ast.NotEq)) and (ta, tb) == ('optint', 'int'):
@@ -1227,6 +1236,10 @@ class M:
                 src = '(%s.map (fun kp_ => ((kp_.1 : Int), kp_.2.add, kp_.2.rem)))' % a
                 xpat, xty = '(%s, %s, %s)' % tuple(mangle(q_) for q_ in nm), 'Int × List Setting × List Setting'
                 benv[nm[0]] = 'int'; benv[nm[1]] = 'slist'; benv[nm[2]] = 'slist'
+            elif ta == 'effitems' and len(nm) == 2 and not rev:
+                src = a
+                xpat, xty = '(%s, %s)' % tuple(mangle(q_) for q_ in nm), 'Nat × Setting'
+                benv[nm[0]] = 'effkey'; benv[nm[1]] = 'setting'
             elif ta == 'pairlist' and len(nm) == 2 and not rev:
                 src = a
                 xpat, xty = '(%s, %s)' % tuple(mangle(q_) for q_ in nm), 'Int × Int'
@@ -1565,6 +1578,40 @@ class M:
         ps = ' '.join('(%s : %s)' % (mangle(n), LEAN_T[t]) for n, t in params)
         return '/-- %s -/\ndef %s (self : AStr) %s : %s :=\n%s\ndef %sOk : Bool := true\n' % (doc, name, ps, rty, text, name)
 
+    def lean_block(self, name, doc, first_target, until_if, entry, result):
+        """the statements from `<first_target> = …` up to (excluding) `if <until_if>:` — wherever in the method they are —
+        as a function of the variables `entry`, yielding the pair of lists `result`"""
+        found = None
+        for n in ast.walk(self.fn):
+            for fld in ('body', 'orelse'):
+                lst = getattr(n, fld, None)
+                if not isinstance(lst, list):
+                    continue
+                for i, st in enumerate(lst):
+                    if isinstance(st, ast.Assign) and len(st.targets) == 1 and isinstance(st.targets[0], ast.Name) and st.targets[0].id == first_target:
+                        for j in range(i + 1, len(lst)):
+                            if isinstance(lst[j], ast.If) and isinstance(lst[j].test, ast.Name) and lst[j].test.id == until_if:
+                                found = lst[i:j]
+                                break
+                    if found:
+                        break
+                if found:
+                    break
+            if found:
+                break
+        if not found:
+            raise Unsupported('no block from %s to `if %s`' % (first_target, until_if))
+        env = dict(entry)
+        def fin(e, i):
+            for r_ in result:
+                if e.get(r_) != 'slist':
+                    raise Unsupported('%s is not a list of settings at the end of the block' % r_)
+            return '  ' * i + '.ok (%s)' % ', '.join(mangle(r_) for r_ in result)
+        text = self.block(found, env, fin, 1)
+        ps = ' '.join('(%s : %s)' % (mangle(n), LEAN_T[t]) for n, t in entry)
+        return '/-- %s -/\ndef %s %s : Except Exc (%s) :=\n%s\ndef %sOk : Bool := true\n' % (
+            doc, name, ps, ' × '.join('List Setting' for _ in result), text, name)
+
     def lean_iter(self, name, doc, after_target, entry):
         """`_AnsiSettingsIterator.__next__` from the statement after `<after_target> = …` on: a function of the
         variables `entry` (the iterator's `current_settings` among them) that yields the new `current_settings`"""
@@ -1706,6 +1753,21 @@ def translate(fns, order, point_fns=None, iter_fns=None, with_assertions=False, 
             except Exception as e:   # noqa
                 out.append('/-- %s — NOT TRANSLATED (%s) -/\ndef %s %s : Except Exc (List Setting) := .error .outside\ndef %sOk : Bool := false\n'
                            % (doc, (type(e).__name__ + ': ' + str(e)).replace('-/', '').replace('\n', ' ')[:300], ln, ' '.join('(_%s : %s)' % (n, LEAN_T[t]) for n, t in spec['entry']), ln))
+            continue
+        if spec.get('block'):
+            fn = fns.get(nm)
+            b0, b1 = spec['block']
+            doc = '`AnsiString.%s`: the statements from `%s = …` up to `if %s:`, statement by statement' % (nm, b0, b1)
+            try:
+                if fn is None:
+                    raise Unsupported('no such method')
+                m = M.__new__(M)
+                m.fn, m.sigs, m.aliased, m.pending, m.nread, m.sig, m.join = fn, dict(sigs), False, [], 0, None, False
+                out.append(m.lean_block(ln, doc, b0, b1, spec['entry'], spec['result']))
+            except Exception as e:   # noqa
+                out.append('/-- %s — NOT TRANSLATED (%s) -/\ndef %s %s : Except Exc (%s) := .error .outside\ndef %sOk : Bool := false\n'
+                           % (doc, (type(e).__name__ + ': ' + str(e)).replace('-/', '').replace('\n', ' ')[:300], ln,
+                              ' '.join('(_%s : %s)' % (n, LEAN_T[t]) for n, t in spec['entry']), ' × '.join('List Setting' for _ in spec['result']), ln))
             continue
         fn = fns.get(nm)
         doc = '`AnsiString.%s`, statement by statement' % nm
